@@ -549,8 +549,15 @@ func (c *callerCtx) target(call *ast.CallExpr) *declInfo {
 		return nil
 	}
 	sig := callee.Type().(*types.Signature)
-	if sig.Variadic() || sig.TypeParams() != nil {
+	if sig.Variadic() {
 		return nil
+	}
+	if sig.TypeParams() != nil {
+		// a generic function can be inlined when nothing in its body names a type parameter: with the
+		// parameters bound to the (typed) arguments the body reads the same for every instance
+		if c.sigAt(call, di) == nil || mentionsTypeParamIn(di) {
+			return nil
+		}
 	}
 	if rtp := sig.RecvTypeParams(); rtp != nil {
 		// methods of one generic type: the type parameters must carry the same names in both declarations
@@ -962,7 +969,10 @@ func (c *callerCtx) tryStmt(s ast.Stmt, inList bool) (string, bool) {
 	if !c.bodyOK(di) || c.captured(call.Pos(), c.free) {
 		return "", false
 	}
-	sig := di.fn.Type().(*types.Signature)
+	sig := c.sigAt(call, di)
+	if sig == nil {
+		return "", false
+	}
 	nres := sig.Results().Len()
 	c.il.n++
 	id := fmt.Sprintf("inl%d", c.il.n)
@@ -1066,7 +1076,10 @@ func (c *callerCtx) sameResults(sig *types.Signature) bool {
 // binding renders "var recv, p1, p2 = recvExpr, (T1)(a1), a2" plus the uses that keep the compiler quiet.
 func (c *callerCtx) binding(call *ast.CallExpr, di *declInfo) (string, bool) {
 	info := c.pkg.TypesInfo
-	sig := di.fn.Type().(*types.Signature)
+	sig := c.sigAt(call, di)
+	if sig == nil {
+		return "", false
+	}
 	var names, vals []string
 	if recv := di.decl.Recv; recv != nil && len(recv.List) == 1 {
 		sel, ok := ast.Unparen(call.Fun).(*ast.SelectorExpr)
@@ -1289,6 +1302,9 @@ func (c *callerCtx) substIn(e ast.Expr) (string, bool) {
 	ret := di.decl.Body.List[0].(*ast.ReturnStmt)
 	rexpr := ret.Results[0]
 	sig := di.fn.Type().(*types.Signature)
+	if sig.TypeParams() != nil {
+		return "", false // direct substitution is kept for plain functions
+	}
 	// parameter object → argument text
 	sub := map[types.Object]string{}
 	dinfo := di.pkg.TypesInfo
@@ -1364,4 +1380,50 @@ func (c *callerCtx) substIn(e ast.Expr) (string, bool) {
 	c.il.n++
 	c.il.log = append(c.il.log, fmt.Sprintf("%s: call of %s replaced by its expression in %s", c.il.P.Fset.Position(hit.Pos()).String()[len(c.il.P.Repo)+1:], di.fn.FullName(), c.fn.FullName()))
 	return c.text(e.Pos(), hit.Pos()) + body + c.text(hit.End(), e.End()), true
+}
+
+// sigAt: the callee's signature as it reads at this call: for a generic function the instance chosen here.
+func (c *callerCtx) sigAt(call *ast.CallExpr, di *declInfo) *types.Signature {
+	sig := di.fn.Type().(*types.Signature)
+	if sig.TypeParams() == nil {
+		return sig
+	}
+	var id *ast.Ident
+	switch f := ast.Unparen(call.Fun).(type) {
+	case *ast.Ident:
+		id = f
+	case *ast.IndexExpr:
+		id, _ = ast.Unparen(f.X).(*ast.Ident)
+	case *ast.IndexListExpr:
+		id, _ = ast.Unparen(f.X).(*ast.Ident)
+	}
+	if id == nil {
+		return nil
+	}
+	inst, ok := c.pkg.TypesInfo.Instances[id]
+	if !ok {
+		return nil
+	}
+	isig, _ := inst.Type.(*types.Signature)
+	if isig == nil || isig.Params().Len() != sig.Params().Len() || isig.Results().Len() != sig.Results().Len() {
+		return nil
+	}
+	return isig
+}
+
+// mentionsTypeParamIn: some identifier in the body of di denotes a type parameter.
+func mentionsTypeParamIn(di *declInfo) bool {
+	found := false
+	info := di.pkg.TypesInfo
+	ast.Inspect(di.decl.Body, func(n ast.Node) bool {
+		if id, ok := n.(*ast.Ident); ok {
+			if tn, isTN := info.Uses[id].(*types.TypeName); isTN {
+				if _, isTP := tn.Type().(*types.TypeParam); isTP {
+					found = true
+				}
+			}
+		}
+		return !found
+	})
+	return found
 }
